@@ -213,11 +213,19 @@ PointerDestinationsOutcomes(st) ==
 \* assert_equal_regions(self, other = self, source_start, other_start, length): cell by cell (step 4) the two
 \* regions must hold the same string, a pointer on both or on neither, the same labels and - where the source cell
 \* holds neither string nor pointer - the same raw word.  Any cell outside the archive makes the call fail.
-CellsEqual(st, x, y) ==
-  /\ HasKey(st.text, x) = HasKey(st.text, y) /\ (HasKey(st.text, x) => Get(st.text, x) = Get(st.text, y))
-  /\ HasKey(st.ptrs, x) = HasKey(st.ptrs, y)
-  /\ HasKey(st.labels, x) = HasKey(st.labels, y) /\ (HasKey(st.labels, x) => Get(st.labels, x) = Get(st.labels, y))
-  /\ (~HasKey(st.text, x) /\ ~HasKey(st.ptrs, x)) => SubSeq(st.data, x + 1, x + 4) = SubSeq(st.data, y + 1, y + 4)
+\* (two archives may differ in endianness: raw words are compared as the numbers they encode)
+WordVal(s, x) == LET b == SubSeq(s.data, x + 1, x + 4) IN IF s.endian = "be" THEN b ELSE Reverse(b)
+CellsEqual2(s1, s2, x, y) ==
+  /\ HasKey(s1.text, x) = HasKey(s2.text, y) /\ (HasKey(s1.text, x) => Get(s1.text, x) = Get(s2.text, y))
+  /\ HasKey(s1.ptrs, x) = HasKey(s2.ptrs, y)
+  /\ HasKey(s1.labels, x) = HasKey(s2.labels, y) /\ (HasKey(s1.labels, x) => Get(s1.labels, x) = Get(s2.labels, y))
+  /\ (~HasKey(s1.text, x) /\ ~HasKey(s1.ptrs, x)) => WordVal(s1, x) = WordVal(s2, y)
+CellsEqual(st, x, y) == CellsEqual2(st, st, x, y)
+\* the same call with another archive as `other` (s1 = self, s2 = other); neither archive changes
+EqualRegions2Outcomes(s1, s2, a, b, len) ==
+  LET offs == { k \in 0..(len - 1) : k % 4 = 0 }
+  IN IF \A k \in offs : InCell(s1, a + k) /\ InCell(s2, b + k) /\ CellsEqual2(s1, s2, a + k, b + k)
+     THEN { Out(ResUnit, 0, s1) } ELSE { ErrOut(s1) }
 EqualRegionsOutcomes(st, a, b, len) ==
   LET offs == { k \in 0..(len - 1) : k % 4 = 0 }
   IN IF \A k \in offs : InCell(st, a + k) /\ InCell(st, b + k) /\ CellsEqual(st, a + k, b + k)
